@@ -535,6 +535,30 @@ func genC04(g *gen) {
 		n = 60000
 	}
 	shs := shapes(1, maxRank, dims)
+	// copies own their elements: a string written into a tensor the library allocated itself (clone, materialisation,
+	// safe transposition, physical transposition of a string tensor, compaction by reshape) is kept alive by that
+	// tensor alone - it must read back after a garbage collection
+	for _, mk := range [][]string{{"clone $0"}, {"slice $0 0:2,1:3", "mat $1"}, {"safeT $0 -"}, {"slice $0 0:2,1:3", "clone $1"},
+		{"T $0 1,0", "clone $0"}, {"slice $0 0:2,1:3", "clone $1", "reshape $2 4"}} {
+		for _, wr := range []string{"memset", "setat"} {
+			steps := append([]string{"new str 3,3 C"}, mk...)
+			v := 0 // the variable made last: T and reshape create none
+			for _, m := range mk {
+				if !strings.HasPrefix(m, "T ") && !strings.HasPrefix(m, "reshape ") {
+					v++
+				}
+			}
+			if wr == "memset" {
+				steps = append(steps, fmt.Sprintf("memset $%d", v))
+			} else if len(mk) == 3 {
+				steps = append(steps, fmt.Sprintf("setat $%d 1", v))
+			} else {
+				steps = append(steps, fmt.Sprintf("setat $%d 0,1", v))
+			}
+			steps = append(steps, "gc", fmt.Sprintf("dump $%d", v), "gc", fmt.Sprintf("dump $%d", v), "dump $0")
+			g.emit(steps...)
+		}
+	}
 	for k := 0; k < n; k++ {
 		sh := shs[g.r.intn(len(shs))]
 		if size(sh) > 200 {
